@@ -23,6 +23,14 @@ CHECKS = {
   technique="deterministic simulation with fault injection: truncation (EOF) at character offsets, character-level corruption from a PVL-significant alphabet, token-channel faults and channel EOF at every token via SimLexer, value loss, garbage after END, on generated and tests/data labels; bounded liveness decided by a deterministic line-event budget (sys.monitoring) and a channel re-delivery bound",
   text="Seeded search over damaged labels in the five parser configurations; invariant on every load: it ends within 4000 line events per input character and 5000 re-deliveries in a module, LexerError or ParseError. Exploration (~146k loads per quick run); hangs are decided by counting, so a stall replays exactly.",
   note="Trusted: the step budget as the definition of 'does not terminate' (40x the observed cost); CPython's sys.monitoring LINE events."),
+"C08": dict(engine="E1-token-channel", design="4 (C08)",
+  technique="deterministic simulation with fault injection on stored text: value-loss faults (all value tokens of an assignment removed) placed systematically per generated label (each assignment, adjacent pairs, first/last/all of each block) and by seeded subsets under seeded layouts with a position map; oracle = tolerant reading by the independent recogniser plus line numbers from the position map",
+  text="Seeded search over labels x layouts with per-label systematic placement of the value-loss fault; the default loader must return the pre-fault tree with empty-string placeholders carrying the 1-based line of their '=' and errors == exactly those lines, and the strict PVL/ODL/PDS3 parsers must raise LexerError/ParseError. Exploration over ~90k loads per quick run.",
+  note="Trusted: sim/refparse.py's tolerant rule (the one C08 states), the renderer's position map, linecount's documented definition of a line."),
+"C15": dict(engine="E1-token-channel", design="4 (C15)",
+  technique="deterministic simulation with fault injection on stored text: single-character corruption (insert/replace, boundary and random code points; thorough tier enumerates all 1,114,112 code points) at seeded positions of every syntactic position class; oracle = specification range table + LexerError position arithmetic + locality from the position map",
+  text="Seeded search over (label, position class, position, code point, insert/replace); a code point outside the dialect's specification table before the END statement must give LexerError with e.doc == text and pos/lineno/colno consistent and local; the default loader must return the character unchanged inside strings. The thorough tier injects every code point at least once per strict grammar (fault alphabet enumerated; positions sampled). Run 0 compares char_allowed with the table for all code points x 4 grammars.",
+  note="Trusted: the tables quoted in the property text; the locality bound start-of-token <= e.pos <= p+1."),
 "C10": dict(engine="E3-history", design="5 (C10), 3.3",
   technique="deterministic simulation: seeded operation histories with failing operations, stepped against a list-of-pairs reference model after every step; ddmin-shrunk explicit replay files",
   text="Seeded search over operation histories (60k quick / 2M thorough histories of up to 40 operations incl. failing calls) on all four container classes; every accessor of every live container is compared with an independent list-of-pairs model after every operation. Evidence, not proof: a clean batch covers the histories it ran.",
